@@ -806,6 +806,15 @@ def bilerp(
     return torch.lerp(lerp1, lerp2, weight2)
 
 
+def _div_zero_by_zero_is_zero(numerator: Tensor, denominator: Tensor) -> Tensor:
+    # numerator / denominator with 0 / 0 := 0
+    # (limit at maturity or at zero volatility away from the strike)
+    output = numerator / denominator
+    return torch.where(
+        (numerator == 0).logical_and(denominator == 0), torch.zeros_like(output), output
+    )
+
+
 def _bs_theta_gamma_relation(gamma: Tensor, spot: Tensor, volatility: Tensor) -> Tensor:
     # theta = -(1/2) * vola^2 * spot^2 * gamma
     # by Black-Scholes formula
@@ -1132,11 +1141,10 @@ def bs_american_binary_delta(
     d2_tensor = d2(s, t, v)
     w = v * t.sqrt()
 
-    # ToDo: fix 0/0 issue
     p = (
-        npdf(d2_tensor).div(spot * w)
+        _div_zero_by_zero_is_zero(npdf(d2_tensor), spot * w)
         + ncdf(d1_tensor).div(strike)
-        + npdf(d1_tensor).div(strike * w)
+        + _div_zero_by_zero_is_zero(npdf(d1_tensor), strike * w)
     )
     return p.where(max_log_moneyness < 0, torch.zeros_like(p))
 
@@ -1237,16 +1245,16 @@ def bs_lookback_price(
     m1 = d1(s - m, t, v)  # d' in the paper
     m2 = d2(s - m, t, v)
 
+    w = v * t.sqrt()
+    # w * (d * N(d) + n(d)) where w * d = x + w^2 / 2 for d = d1(x, t, v):
+    # written without the product w * d, which is 0 * inf at maturity or at zero volatility
+    term_0 = (s + w.square() / 2) * ncdf(d1_value) + w * npdf(d1_value)
+    term_1 = (s - m + w.square() / 2) * ncdf(m1) + w * npdf(m1)
+
     # when max < strike
-    price_0 = spot * (
-        ncdf(d1_value) + v * t.sqrt() * (d1_value * ncdf(d1_value) + npdf(d1_value))
-    ) - strike * ncdf(d2_value)
+    price_0 = spot * (ncdf(d1_value) + term_0) - strike * ncdf(d2_value)
     # when max >= strike
-    price_1 = (
-        spot * (ncdf(m1) + v * t.sqrt() * (m1 * ncdf(m1) + npdf(m1)))
-        - strike
-        + max * (1 - ncdf(m2))
-    )
+    price_1 = spot * (ncdf(m1) + term_1) - strike + max * (1 - ncdf(m2))
 
     return torch.where(max < strike, price_0, price_1)
 
@@ -1262,15 +1270,22 @@ def bs_lookback_delta(
 
     See :func:`pfhedge.nn.BSLookbackOption.delta` for details.
     """
-    # TODO(simaki): Calculate analytically
-    return autogreek.delta(
-        bs_lookback_price,
-        log_moneyness=log_moneyness,
-        max_log_moneyness=max_log_moneyness,
-        time_to_maturity=time_to_maturity,
-        volatility=volatility,
-        strike=strike,
+    s, m, t, v = map(
+        torch.as_tensor,
+        (log_moneyness, max_log_moneyness, time_to_maturity, volatility),
     )
+    w = v * t.sqrt()
+    d1_value = d1(s, t, v)
+    m1 = d1(s - m, t, v)
+
+    # Derivative of bs_lookback_price with respect to the spot at a fixed running maximum:
+    # the terms n(d) / w cancel in each branch since S n(d1) = K n(d2).
+    # when max < strike
+    delta_0 = (2 + s + w.square() / 2) * ncdf(d1_value) + w * npdf(d1_value)
+    # when max >= strike
+    delta_1 = (2 + s - m + w.square() / 2) * ncdf(m1) + w * npdf(m1)
+
+    return torch.where(m.exp() * strike < strike, delta_0, delta_1)
 
 
 def bs_lookback_gamma(
